@@ -52,13 +52,36 @@ def accumulators_once(cx, fn, loop, names, rule='ONCE'):
     return n
 
 
+def curve_accumulator(cx, fn):
+    """Name of the list bound as sc_list in the returned callable."""
+    parts = [c for c in fn.calls('functools.partial')]
+    cx.need(len(parts) == 1, 'mef.get_transform_fxn: expected one functools.partial')
+    v = kwarg(parts[0], 'sc_list')
+    cx.need(isinstance(v, ast.Name), 'mef.get_transform_fxn: sc_list is not bound to a named list')
+    return v.id
+
+
+def accumulator_names(fn, loop):
+    """Lists initialised empty before the channel loop and appended to inside it."""
+    ap = appends(fn, loop)
+    out = []
+    for nm in ap:
+        inits = [s for s in fn.stmts(ast.Assign) if isinstance(s.targets[0], ast.Name) and s.targets[0].id == nm
+                 and isinstance(s.value, ast.List) and not s.value.elts and s.lineno < loop.lineno]
+        if inits:
+            out.append(nm)
+    return out
+
+
 def transform_assembly(cx):
     """C06: one standard curve per calibrated channel; both lists bound in the returned callable."""
     fn = Fn(cx, 'mef.get_transform_fxn')
     loop, pairs = channel_loop(cx, fn)
-    accumulators_once(cx, fn, loop, ['std_crv_res'])
+    ACC = curve_accumulator(cx, fn)
+    accumulators_once(cx, fn, loop, [ACC])
     # what is appended is the first output of the fitting function for this channel's selected values
-    ap = appends(fn, loop)['std_crv_res'][0].value.args[0]
+    cx.need(ACC in appends(fn, loop), 'mef.get_transform_fxn: the curve list is not filled in the channel loop')
+    ap = appends(fn, loop)[ACC][0].value.args[0]
     nf = fn.nf(ap, at=ap)
     fit_calls = [c for c in fn.calls('fitting_fxn', root=loop)]
     cx.need(len(fit_calls) == 1, 'mef.get_transform_fxn: expected one call of the fitting function per channel')
@@ -70,7 +93,7 @@ def transform_assembly(cx):
     cx.need(len(parts) == 1, 'mef.get_transform_fxn: expected one functools.partial')
     p = parts[0]
     ok = bool(p.args) and dotted(p.args[0]) == 'FlowCal.transform.to_mef' and \
-        dotted(kwarg(p, 'sc_list')) == 'std_crv_res' and dotted(kwarg(p, 'sc_channels')) == 'mef_channels' \
+        dotted(kwarg(p, 'sc_list')) == ACC and dotted(kwarg(p, 'sc_channels')) == 'mef_channels' \
         and {k.arg for k in p.keywords} == {'sc_list', 'sc_channels'} and len(p.args) == 1
     fn.ob('PAIR', 'returned callable fixes the curve list and the list of their channels (and nothing else)', ok, p,
           detail='' if ok else norm_stmt(p), key='partial')
@@ -169,6 +192,11 @@ def fit_model(cx):
 
 GTF = 'mef.get_transform_fxn'
 GTF_ITEMS = [
+    ('a single channel is treated as a one-element list of channels', 'mef_channels = [mef_channels]'),
+    ('... with its values as a one-element list', 'mef_values = [mef_values]'),
+    ('a list of channels is copied', 'mef_channels = list(mef_channels)'),
+    ('clustering channels default to the calibrated channels', 'clustering_channels = mef_channels'),
+    ('... only when none are given', 'if clustering_channels is None:'),
     ('manufacturer values as a float array (unknown values become NaN)', 'mef_values = np.array(mef_values, dtype=float)'),
     ('number of subpopulations = number of values per channel', 'NC = len(mef_values[0])'),
     ('clustering on the clustering channels into that many groups',
@@ -202,7 +230,7 @@ for _m in ('PO', 'PO2', 'PO3', 'PO4'):
 def calibration_workflow(cx):
     fn = Fn(cx, GTF)
     loop, pairs = channel_loop(cx, fn)
-    b = inventory(fn, 'FORMULA', GTF_ITEMS, GTF_METAS, fixed={'MCH': pairs[0][0], 'MVC': pairs[1][0]})
+    b = inventory(fn, 'FORMULA', GTF_ITEMS, GTF_METAS, fixed={'MCH': pairs[0][0], 'MVC': pairs[1][0]}, rebind_ok=('plot_filename',))
     # ordering: nothing re-orders the populations after the sort; the sort precedes the channel loop
     pops = b.get('POPS')
     if pops:
@@ -214,16 +242,17 @@ def calibration_workflow(cx):
         fn.ob('SLICE', 'the population list is defined by grouping and by the brightness sort only, before the channel loop', ok and not mods and not inpl,
               defs[-1] if defs else fn.ast, key='order-once')
     # accumulators
-    names = ['std_crv_res', 'stats_values_res', 'selected_rfi_res', 'selected_mef_res', 'beads_model_res', 'beads_params_res',
-             'beads_model_str_res', 'beads_params_names_res']
+    names = accumulator_names(fn, loop)
     n = accumulators_once(cx, fn, loop, names)
     cx.floor('ONCE', n, 8, 'result accumulators')
-    # what is accumulated
+    # what is accumulated: the reported lists collect this channel's statistic vector and selections
     ap = appends(fn, loop)
-    for acc, meta in (('stats_values_res', 'SV'), ('selected_rfi_res', 'SRFI'), ('selected_mef_res', 'SMEF')):
-        if meta in b and acc in ap:
-            ok = sym.norm(ap[acc][0].value.args[0]) == b[meta]
-            fn.ob('ONCE', '%s collects this channel\'s %s' % (acc, meta), ok, ap[acc][0], key='acc-src-' + acc)
+    for meta, rep, what in (('SV', 'SVR', 'statistics'), ('SRFI', 'SRR', 'selected RFI values'), ('SMEF', 'SMR', 'selected MEF values')):
+        if meta in b and rep in b:
+            acc = b[rep][1]
+            ok = acc in ap and len(ap[acc]) == 1 and sym.norm(ap[acc][0].value.args[0]) == b[meta]
+            fn.ob('ONCE', 'the reported %s are the ones computed for each channel' % what, ok, ap[acc][0] if acc in ap else loop,
+                  key='acc-src-' + meta)
     # RNG: the only randomness is NumPy's legacy global generator / estimators without their own seed
     cl = Fn(cx, 'mef.clustering_gmm')
     rnd = []
@@ -254,6 +283,12 @@ GMM_ITEMS = [
     ('initial mean of the cluster', 'MEANS.append(np.mean(DC, axis=0))'),
     ('covariance regularised on its diagonal for every cluster', 'COV += np.eye(data.shape[1]) * min_covar'),
     ('initial covariance of the cluster', 'COVARS.append(COV)'),
+    ('means as an array', 'MEANS = np.array(MEANS)'),
+    ('precisions are the inverses of the regularised covariances',
+     "PREC = [scipy.linalg.solve(CV, np.eye(CV.shape[0]), assume_a='pos') for CV in COVARS]"),
+    ('precisions as an array', 'PREC = np.array(PREC)'),
+    ('the mixture is initialised with the quantile means, equal weights and those precisions',
+     "GMM = GaussianMixture(n_components=n_clusters, tol=tol, covariance_type='full', weights_init=W, means_init=MEANS, precisions_init=PREC, max_iter=500)"),
     ('fit on the rescaled events', 'GMM.fit(data)'),
     ('responsibilities of every event', 'RESP = GMM.predict_proba(data)'),
     ('one label per event sampled from its responsibilities', 'LBL = [np.random.choice(range(n_clusters), p=RI) for RI in RESP]'),
@@ -264,18 +299,13 @@ GMM_ITEMS = [
 def clustering(cx):
     fn = Fn(cx, 'mef.clustering_gmm')
     b = inventory(fn, 'FORMULA', GMM_ITEMS, ['W', 'DIST', 'SI', 'NPC', 'IL', 'IH', 'I', 'DF', 'SIC', 'DC', 'MEANS', 'COV', 'COVARS',
-                                             'GMM', 'RESP', 'LBL', 'RI'])
+                                             'GMM', 'RESP', 'LBL', 'RI', 'PREC', 'CV'], rebind_ok=('data', 'min_covar'))
     # the regularisation is applied on every path of the per-cluster loop
     reg = [s for s in fn.stmts(ast.AugAssign) if 'min_covar' in ast.unparse(s)]
     if reg:
         lp = [a for a in fn.ancestors(reg[0]) if isinstance(a, ast.For)]
         ok = bool(lp) and any(reg[0] is x for x in lp[0].body)
         fn.ob('FORMULA', 'the covariance regularisation is unconditional (also for a single clustering channel)', ok, reg[0], key='reg-unconditional')
-    gm = fn.calls('GaussianMixture')
-    if gm:
-        ok = sym.norm(gm[0]) == sym.norm("GaussianMixture(n_components=n_clusters, tol=tol, covariance_type='full', weights_init=%s, means_init=%s, precisions_init=precisions, max_iter=500)"
-                                         % (b.get('W', ('var', 'weights'))[1], 'means'))
-        fn.ob('FORMULA', 'the mixture is initialised with the quantile means, weights and precisions', ok, gm[0], key='gmm-args')
     return fn
 
 
